@@ -1,7 +1,7 @@
 //! A basic interpreter on the internal bytecode.
 
 use std::{
-    alloc::{alloc_zeroed, dealloc, Layout},
+    alloc::{alloc_zeroed, dealloc, handle_alloc_error, Layout},
     mem, ptr,
 };
 
@@ -98,6 +98,9 @@ impl<C: CellType> BcInterpreter<C> {
         .unwrap();
         unsafe {
             let ptr = alloc_zeroed(layout) as *mut OpsContext<C>;
+            if ptr.is_null() {
+                handle_alloc_error(layout);
+            }
             ptr::addr_of_mut!((*ptr).min_accessed).write(self.bytecode.min_accessed);
             ptr::addr_of_mut!((*ptr).max_accessed).write(self.bytecode.max_accessed);
             ptr::addr_of_mut!((*ptr).context).write(cxt);
